@@ -220,8 +220,11 @@ type Dialer struct {
 	fail    map[int]bool
 	mu      sync.Mutex
 	failAll bool
+	okDials int
 	n       int
 	onDial  func(n int, cli *mqtt.BaseClient, conn *memnet.Conn)
+	// onActive is called inside the ConnState(Active) callback of connection k (1-based ordinal of accepted dials).
+	onActive func(k int)
 	// Before is called at the start of every DialContext (after dial.start was recorded).
 	Before func(n int)
 }
@@ -283,7 +286,14 @@ func (d *Dialer) DialContext(ctx context.Context) (*mqtt.BaseClient, error) {
 	}
 	r.Clients[conn.ID] = cli
 	tr.Mu.Unlock()
+	d.mu.Lock()
+	d.okDials++
+	ordinal := d.okDials
+	d.mu.Unlock()
 	cli.ConnState = StateCB(tr, conn.ID, func(s mqtt.ConnState, err error) {
+		if s == mqtt.StateActive && d.onActive != nil {
+			d.onActive(ordinal)
+		}
 		if s == mqtt.StateActive && r.Sc.SlowActive {
 			for i := 0; i < 50; i++ {
 				runtime.Gosched()
@@ -323,7 +333,11 @@ func Exec(sc *Scenario) *Run {
 	if sc.RespMs > 0 {
 		retry.ResponseTimeout = time.Duration(sc.RespMs) * time.Millisecond
 	}
+	var onErrorHook func()
 	retry.OnError = func(err error) {
+		if onErrorHook != nil {
+			defer onErrorHook()
+		}
 		e := memnet.Event{Kind: memnet.KOnError, Err: ErrStr(err)}
 		var rte *mqtt.RequestTimeoutError
 		if errors.As(err, &rte) {
@@ -461,6 +475,13 @@ func Exec(sc *Scenario) *Run {
 		time.Sleep(500 * time.Microsecond)
 		tr.Note("steer: released")
 	}
+	// steering from inside user callbacks: ConnState(Active) of connection SteerConn, or the SteerConn-th OnError call
+	d.onActive = func(k int) { steer("active", k) }
+	nOnError := 0
+	onErrorHook = func() {
+		nOnError++ // OnError is only called from the task goroutine
+		steer("onerror", nOnError)
+	}
 	nconn := 0
 	var nconnMu sync.Mutex
 	d.onDial = func(n int, c *mqtt.BaseClient, conn *memnet.Conn) {
@@ -535,7 +556,7 @@ func Exec(sc *Scenario) *Run {
 		// the steered submissions must precede the sentinel
 		select {
 		case <-steerFinished:
-		case <-time.After(Watchdog / 4):
+		case <-time.After(Watchdog / 20):
 			tr.Note("steer point never reached")
 		}
 	}
